@@ -12,11 +12,11 @@ CONSTANTS
   Dts = {250}
   CraftToks = {"TA", "TV2"}
   MaxPresent = 2
-  Calls = {"client", "craft", "readdress"}
+  Calls = {"client", "craft", "readdress", "deliver"}
   PropsOn <- P_HS
   Export = TRUE
   ExportAll = FALSE
-  ExportOneIn = 40
+  ExportOneIn = 2
 INVARIANT NoFlag
 INVARIANT ExportInv
 VIEW View
